@@ -474,6 +474,20 @@ def native_value_programs():
     return ["// native-values\n" + pre + p for p in progs]
 
 
+def descriptor_value_programs():
+    """Everything the reflection built-ins hand out about properties of every shape: each field is a value the script holds."""
+    shapes = {"data": "{k: 1}", "getter-only": "{get k() { return 1; }}", "setter-only": "{set k(v) { }}", "both": "{get k() { return 1; }, set k(v) { }}",
+              "defined-getter": "Object.defineProperty({}, 'k', {get: function () { return 1; }, enumerable: true, configurable: true})",
+              "defined-setter": "Object.defineProperty({}, 'k', {set: function (v) { }, enumerable: true, configurable: true})", "defined-value": "Object.defineProperty({}, 'k', {value: undefined})",
+              "inherited": "Object.create({get k() { return 1; }})", "array-index": "[5]", "array-length": "[5]", "function-name": "(function f() { })", "string-index": "'abc'", "missing": "{}"}
+    progs = []
+    for sn, sh in shapes.items():
+        key = {"array-index": "0", "array-length": "'length'", "function-name": "'name'", "string-index": "1"}.get(sn, "'k'")
+        progs.append("var o = %s; var d = Object.getOwnPropertyDescriptor(o, %s); var seen = []; if (d) { for (var f in d) { seen.push(f, d[f]); hostfn(d[f]); } log(d.get, d.set, d.value, d.writable, d.enumerable, d.configurable, d.get === undefined, d.set === undefined, String(d.set), typeof d.get); } "
+                     "log(seen, d === undefined, Object.keys(o), Object.getOwnPropertyNames ? Object.getOwnPropertyNames(o) : 0, Object.getPrototypeOf(o) === null); hostfn(d, seen);" % (sh, key))
+    return progs
+
+
 def operator_value_programs():
     """The result of every operator on every pair of a value grid is logged under the sanitizer: an arithmetic corner that the host
     answers with one of its own types (complex, Decimal, Fraction, NotImplemented, a big int that is not a double ...) is a host value in
@@ -578,7 +592,7 @@ def main(ctx):
         # random programs + closure-heavy programs with the sanitizer on
         progs = [progen.random_program(rng) for _ in range(300 if ctx.quick else 6000)] + \
                 [progen.closure_heavy(rng) for _ in range(100 if ctx.quick else 2000)]
-        progs += caught_error_programs() + native_value_programs() + operator_value_programs()
+        progs += caught_error_programs() + native_value_programs() + operator_value_programs() + descriptor_value_programs()
         # control-flow corner programs whose operand-stack discipline is the hazard (what a stray slot holds is an interpreter-internal
         # object): jumps out of finally over pending completions, in callees whose call is an operand inside for-in/for-of/switch
         from vf import skel
